@@ -173,7 +173,8 @@ FAULTS = ["unknown-key", "bad-key", "repeat-single", "repeat-wild",
           "key-is-slot-name", "unknown-type", "abstract-direct",
           "not-admitted", "unnamed-in-plus", "wrong-fixed-name",
           "literal-star-name", "reuse-name", "second-in-single",
-          "missing-required", "bad-value", "raw-junk", "name-is-key"]
+          "missing-required", "bad-value", "raw-junk", "name-is-key",
+          "reuse-name-across-slots"]
 
 JUNK = ["<a b c>", "(x", "</zz>", "<", "<>", "%bogus x", "%define", "k $",
         "k ${x", "k $nope", "</", "<a", "%import", ")"]
@@ -287,6 +288,34 @@ def _fault_in(rng, res, node, cont, kind):
         import copy
         dup = copy.deepcopy(src)
         _ins(rng, node, ["s", dup])
+        return src["name"]
+    if kind == "reuse-name-across-slots":
+        # a second section with an already used name that binds to a
+        # *different* slot (so only the name rule can refuse it)
+        named = [it for it in items if it[0] == "s" and it[1]["name"]]
+        if not named:
+            return None
+        src = rng.choice(named)[1]
+        st = src["type"].lower()
+        cand = []
+        for c in slots:
+            if c["name"] not in ("*", "+") or res.admits(c, st):
+                continue
+            for t in res.admitted(c):
+                if not any(o is not c and o["name"] in ("*", "+") and
+                           res.admits(o, t) for o in slots):
+                    cand.append(t)
+        if not cand:
+            return None
+        t = rng.choice(cand)
+        dup = mknode(t, src["name"], "pair")
+        Gen(rng, res, p_bad_value=0.0).fill(dup, res.types[t], 3)
+        pos = items.index([it for it in items
+                           if it[0] == "s" and it[1] is src][0])
+        if rng.random() < 0.5:
+            items.insert(rng.randint(pos + 1, len(items)), ["s", dup])
+        else:
+            items.insert(rng.randint(0, pos), ["s", dup])
         return src["name"]
     if kind == "second-in-single":
         cand = []
